@@ -12,6 +12,7 @@ from bt.core import AlgoStack
 from .. import common
 
 ID = "C13"
+KNOWN_CEILING = {'k4_oob_cash_branch': 0.25}   # share of all evaluations a known finding may reach before it counts as a violation again
 LEVEL = "exploration"
 RULE = ("Unit 'flat' enumerates EVERY stack of length 0..5 over {returns True, returns False} x {no run_always attribute, run_always=True, "
         "run_always=False} (9331 programs) against a reference interpreter (which mocks ran, in which order, truthiness of the result). Unit "
